@@ -40,7 +40,7 @@ def run(ck, fb):
     r02g(ck, fb)
     r02h(ck, fb)
     r02i(ck, fb)
-    ck.borrow('rules.c03', {'R03b': 'R02j', 'R03g': 'R02k'}, 'a truncation that leaves wrong cursors / keeps the suffix breaks the reopened log')
+    ck.borrow('rules.c03', {'R03b': 'R02j', 'R03g': 'R02k', 'R03i': 'R02l'}, 'a truncation that leaves wrong cursors / keeps the suffix breaks the reopened log')
 
 
 def r02a(ck, fb):
